@@ -4,6 +4,7 @@ package c04
 import (
 	"github.com/csgura/fp"
 	"github.com/csgura/fp/as"
+	"github.com/csgura/fp/hash"
 	"github.com/csgura/fp/immutable"
 	zz "github.com/csgura/fp/internal/zzverif"
 )
@@ -325,4 +326,50 @@ func VH_c04_option_try_tuple_values() {
 	tp.Init()
 	h, _, _ := tp.Unapply()
 	zz.Assert(tp.I1 == x && tp.I2 == f(x) && tp.I3 == 7 && h == x, "tuple accessors leave the tuple unchanged")
+}
+
+// a trie-shaped collection (more than 8 entries, a shared first-level slot) and SEVERAL later uses of the builder:
+// whatever the builder does afterwards (panic, continue on a copy, ...), the collection handed out is unchanged
+func VH_c04_builders_reused_several_times() {
+	zz.Config("loop", 400)
+	h := hash.Number[int]()
+	keys := []int{0, 1, 2, 3, 4, 5, 6, 7, 8, 33, 65}
+	late := []int{33, 1, 97, 2, 40, 65}
+	if zz.Bool("set") {
+		b := immutable.SetBuilder[int](h)
+		for _, k := range keys {
+			b = b.Add(k)
+		}
+		s := b.Build()
+		zz.Freeze("built", s)
+		for i := 0; i < 3; i++ {
+			k := late[zz.Choice("late"+string(rune('0'+i)), len(late))]
+			tryAdd(func() { b = b.Add(k) })
+		}
+		tryAdd(func() { b.Build() })
+		zz.CheckFrozen("built")
+		agreeSet(s, keys, late, "built set after the builder was used again several times")
+		return
+	}
+	b := immutable.MapBuilder[int, int](h)
+	for _, k := range keys {
+		b = b.Add(k, k*10)
+	}
+	m := b.Build()
+	zz.Freeze("built", m)
+	for i := 0; i < 3; i++ {
+		k := late[zz.Choice("late"+string(rune('0'+i)), len(late))]
+		v := zz.Int("late.v" + string(rune('0'+i)))
+		tryAdd(func() { b = b.Add(k, v) })
+	}
+	tryAdd(func() { b.Build() })
+	zz.CheckFrozen("built")
+	zz.Assert(m.Size() == len(keys), "built map: Size unchanged")
+	for _, k := range keys {
+		g := m.Get(k)
+		zz.Assert(g.IsDefined() && g.Get() == k*10, "built map: every binding unchanged after the builder was used again several times")
+	}
+	for _, k := range []int{97, 40} {
+		zz.Assert(m.Get(k).IsEmpty(), "built map: no key appears later")
+	}
 }
